@@ -139,7 +139,7 @@ def rule_mode_pairing(db: ProgramDB) -> List[Instance]:
     # itself (inside the inlined finally copies) are assumed not to raise.
     ev = AbsEval(db, sm, cfg)
     IN = ev.run(State({}))
-    no_cleanup_exc = lambda e, node: not (e.kind == "e" and node.region)
+    no_cleanup_exc = lambda e, node: not (e.kind == "e" and node.region and not e.resume)
     is_restore = lambda n: setter_call(n, "restore")
     for label, start in (("after-set", setn), ("yield", y)):
         if label == "after-set":
